@@ -10,16 +10,24 @@ void svt_print_alloc_fail(const char *f, int l) { (void)f; (void)l; }
 #ifndef FAIL
 #define FAIL 1
 #endif
+#ifndef MAXREQ
+#define MAXREQ 40
+#endif
+#ifndef SRM_NOBJ
+#define SRM_NOBJ 1
+#define SRM_NCONS 1
+#endif
 #if OBJ == 1
 #include "Source/Lib/Encoder/Codec/EbEncDecSegments.c"
 typedef EncDecSegments T;
 static EbErrorType make(T **pp) { EB_NEW(*pp, enc_dec_segments_ctor, (uint32_t)vin_range(1, 3), (uint32_t)vin_range(1, 3)); return EB_ErrorNone; }
 #elif OBJ == 2
+#include "common/dctor_dispatch_srm.h"
 #include "Source/Lib/Common/Codec/EbSystemResourceManager.c"
 typedef EbSystemResource T;
 typedef struct Payload { EbDctor dctor; int v; } Payload;
 static EbErrorType payload_creator(EbPtr *obj, EbPtr init) { (void)init; Payload *p; EB_CALLOC(p, 1, sizeof(Payload)); *obj = p; return EB_ErrorNone; }
-static EbErrorType make(T **pp) { EB_NEW(*pp, svt_system_resource_ctor, (uint32_t)vin_range(1, 2), 1, (uint32_t)vin_range(0, 1), payload_creator, NULL, NULL); return EB_ErrorNone; }
+static EbErrorType make(T **pp) { EB_NEW(*pp, svt_system_resource_ctor, SRM_NOBJ, 1, SRM_NCONS, payload_creator, NULL, NULL); return EB_ErrorNone; }
 #elif OBJ == 3
 #include "Source/Lib/Common/Codec/EbPictureBufferDesc.c"
 typedef EbPictureBufferDesc T;
@@ -39,9 +47,14 @@ static EbErrorType make(T **pp) { EB_NEW(*pp, output_bitstream_unit_ctor, (uint3
 
 void harness(void) {
     T *p = NULL;
-    v_alloc_fail = FAIL; v_create_may_fail = FAIL;
+#if FAIL
+    v_arm_single_failure(MAXREQ); v_create_may_fail = 1;
+#endif
     EbErrorType r = make(&p);
+    int failed = v_alloc_failures;
     v_alloc_fail = 0; v_create_may_fail = 0;
+    V_ASSERT(v_alloc_requests <= MAXREQ, "harness bound on the number of allocation requests large enough");
+    V_ASSERT((r == EB_ErrorNone) == (failed == 0), "the call reports an error exactly when a request failed");
     if (r == EB_ErrorNone) {
         V_ASSERT(p != NULL, "successful construction returns an object");
         EB_DELETE(p);
